@@ -227,6 +227,13 @@ def main():
             os.makedirs(tmp + "/c", exist_ok=True)
             with cf.ThreadPoolExecutor(max_workers=8) as ex:
                 compile_results = list(ex.map(build_one, P["compile_designs"]))
+        history_results = []
+        if "history_designs" in P:
+            import gdesign
+            os.makedirs(tmp + "/h", exist_ok=True)
+            with cf.ThreadPoolExecutor(max_workers=4) as ex:
+                futs = {d: ex.submit(gdesign.history, d, REPO, tmp + "/h/" + d, 3 if tier == "quick" else 10) for d in P["history_designs"]}
+                history_results = [(d, f.result()) for d, f in futs.items()]
         tasks = []
         for job in jobs:
             rx = job["thorough"] if tier == "thorough" else job["quick"]
@@ -377,6 +384,14 @@ def main():
             json.dump({"design": d, "stage": stage, "output": msg, "how_to_replay": f"python3 /verif/gdesign.py {d}  && (cd <dir> && go build ./gen/...)"}, open(path, "w"), indent=1)
             violations_out.append(({"harness": "design:" + d, "assert": "generated-code-compiles", "model": {}, "detail": msg[-300:]}, path))
         P["_compiled"] = [d for d, st, _ in compile_results if st is None]
+        for d, problems in history_results:
+            if not problems:
+                continue
+            os.makedirs(replay_dir, exist_ok=True)
+            path = os.path.join(replay_dir, f"history_{d}.json")
+            json.dump({"design": d, "problems": problems, "how_to_replay": f"python3 -c \"import sys; sys.path.insert(0,'/verif'); import gdesign, tempfile; print(gdesign.history('{d}', '/repo', tempfile.mkdtemp()))\""}, open(path, "w"), indent=1)
+            violations_out.append(({"harness": "history:" + d, "assert": "generation-repeatable-and-examples-preserved", "model": {}, "detail": "; ".join(problems)[:400]}, path))
+        P["_histories"] = len(history_results)
         for am in api_mismatch:
             os.makedirs(replay_dir, exist_ok=True)
             path = os.path.join(replay_dir, f"{am['harness']}_generated_api_mismatch.json")
